@@ -38,6 +38,21 @@ CHECKS = {
             "Trusted: the deny-list of effectful built-ins, the 6 GB address-space cap (allocation failure = host crash), catch_unwind attribution with JIT off. "
             "Arity >= 3 calls and longer texts are outside the bound.",
             "DESIGN.md §3 C07"),
+    "C01": ("exploration",
+            "small-scope exhaustive enumeration of programs (all closed core terms up to a size, every small term in every compiler position context, skeleton families with enumerated holes, evaluation histories) run on the real engine and compared step by step with a reference CEK evaluator",
+            "All closed core terms up to size 4 (thorough 5: 153k), every term up to size 2 (3) in 13 position contexts, ~2.7k skeleton programs (call-site x "
+            "parameter shapes incl. variadic self tail calls, counters, shadowing of 26 specialised built-in names as parameter/local/global at right and wrong "
+            "arity, dead code, let depth x arguments under tail calls, begin/define interleavings, higher-order procedures, JIT operand grid, histories, and the "
+            "multi-step programs again as one compilation unit) are evaluated and compared with vp/ref_scheme.py on status, value and output of every step.",
+            "Trusted: the reference evaluator (written from R7RS + Steel's documented deviations) and the encoder hook. Programs whose outcome depends on operand "
+            "evaluation order, on an unspecified value, or on a never-evaluated free identifier are skipped (counted).",
+            "DESIGN.md §3 C01"),
+    "C02": ("exploration",
+            "differential small-scope enumeration: the C01 program families (incl. evaluation histories) under every configuration of the five switches, one engine process per configuration, all configurations must agree step by step",
+            "Every program of the C01 families is evaluated under default + each switch flipped alone (thorough: all 32 combinations of STEEL_JIT, STEEL_INLINE, "
+            "STEEL_INLINE_RECURSIVE, STEEL_CLOSURE_LIFTING, STEEL_MODULE_INLINE); per step the (status, value, output) must be identical. No reference needed.",
+            "Trusted: determinism of the programs. Decides agreement for the enumerated programs only.",
+            "DESIGN.md §3 C02"),
 }
 
 NOT_YET = {}
